@@ -104,7 +104,7 @@ fn tlv_mutants(seed: &[u8], rng: &mut Rng, max: usize) -> Vec<Vec<u8>> {
 	};
 	let n = count_nodes(&tree);
 	let mut out = Vec::new();
-	let kinds = 9;
+	let kinds = 12;
 	let total = n * kinds;
 	let step = (total / max.max(1)).max(1);
 	let mut idx = rng.below(step as u64) as usize;
@@ -150,8 +150,22 @@ fn tlv_mutants(seed: &[u8], rng: &mut Rng, max: usize) -> Vec<Vec<u8>> {
 					ch.reverse();
 				}
 			},
-			_ => {
+			8 => {
 				sibs[i].tag = vec![0x1f, 0x81, 0x00];
+			},
+			9 => {
+				// every content octet with the continuation bit set (an OID / tag number that never ends)
+				sibs[i].children = None;
+				let c = if sibs[i].content.is_empty() { vec![0x55; 3] } else { sibs[i].content.clone() };
+				sibs[i].content = c.iter().map(|b| b | 0x80).collect();
+			},
+			10 => {
+				sibs[i].children = None;
+				sibs[i].content = vec![0x80, 0x01]; // non-minimal sub-identifier / leading padding
+			},
+			_ => {
+				sibs[i].children = None;
+				sibs[i].content = vec![0xff; 9]; // a sub-identifier beyond 64 bits; a negative 9-octet INTEGER
 			},
 		});
 		out.push(encode_nodes(&t));
